@@ -335,11 +335,16 @@ def run(ctx):
         if len(xcases) in (1, 9):
             ctx.sample(dict(cmd="cij extract " + " ".join(args), dir=tag, stdout=out[:400]))
 
-    def do_geotherm(tag, d, listing, files, vars_, geo_cols, tcol=None, pcol=None, fn=None, tol=None, T_name="T", P_name="P"):
+    def do_geotherm(tag, d, listing, files, vars_, geo_cols, tcol=None, pcol=None, fn=None, tol=None, T_name="T", P_name="P",
+                    int_cols=()):
         gpath = d / ("geo_%d.txt" % len(gcases))
         names = [n for n, _ in geo_cols]
         rows = zip(*[c for _, c in geo_cols])
-        gpath.write_text(" ".join(names) + "\n" + "\n".join(" ".join(repr(x) for x in r) for r in rows) + "\n")
+        # columns in int_cols are written the way geotherm files usually are: whole numbers without a decimal point
+        num = lambda n, x: ("%d" % x) if n in int_cols else repr(x)          # noqa: E731
+        gpath.write_text(" ".join(names) + "\n" + "\n".join(" ".join(num(n, x) for n, x in zip(names, r)) for r in rows) + "\n")
+        if int_cols:
+            ctx.count("extract-geotherm with integer-written columns")
         args = ["-g", gpath.name, "-v", ",".join(vars_)]
         if tcol is not None:
             args += ["--t-col", tcol]
@@ -423,7 +428,7 @@ def run(ctx):
             vs = [["c12s"], ["bm_VRH", "c11s"], ["c11s", "c12s", "v_p"], vars_all][n % 4]
             do_extract(tag, d, listing, files, vs, True, y, hide=(n == 5))
         # random requests (inside, between and beyond the grid) and random variable lists
-        for n in range(3 if quick else 12):
+        for n in range(3 if quick else 60):
             vs = ctx.rng.sample(vars_all, ctx.rng.randint(1, 4))
             if ctx.rng.random() < 0.5:
                 y = round(ctx.rng.uniform(T[0] - 2 * dT, T[-1] + 2 * dT), ctx.rng.choice([0, 1, 3]))
@@ -444,7 +449,15 @@ def run(ctx):
         do_geotherm(tag, d, listing, files, ["c11s", "v_p"],
                     [("P", [p for _, p in pts]), ("T", [t for t, _ in pts]), ("D", [100.0 * n for n in range(len(pts))])],
                     fn=lin, tol=1e-6)
-        rpts = [(round(ctx.rng.uniform(T[0], T[-1]), 2), round(ctx.rng.uniform(P[0], P[-1]), 3)) for _ in range(4 if quick else 12)]
+        # whole-number temperatures / pressures written without a decimal point (pandas reads them as int64 columns)
+        ipts = nodes[:3] + [(float(math.floor(t)), p) for t, p in mids] + [(float(math.ceil(T[1] + 0.37 * dT)), float(math.ceil(P[0] + 0.4 * dP)))]
+        do_geotherm(tag, d, listing, files, ["c11s", "v_p"],
+                    [("D", [10.0 * n for n in range(len(ipts))]), ("P", [p for _, p in ipts]), ("T", [t for t, _ in ipts])],
+                    fn=lin, tol=1e-6, int_cols=("T", "D"))
+        if all(float(p).is_integer() for _, p in nodes):
+            do_geotherm(tag, d, listing, files, ["bm_VRH"],
+                        [("P", [p for _, p in nodes]), ("T", [t for t, _ in nodes])], fn=lin, tol=1e-6, int_cols=("T", "P"))
+        rpts = [(round(ctx.rng.uniform(T[0], T[-1]), 2), round(ctx.rng.uniform(P[0], P[-1]), 3)) for _ in range(4 if quick else 40)]
         do_geotherm(tag, d, listing, files, ctx.rng.sample(vars_all, 2),
                     [("T", [t for t, _ in rpts]), ("z", [1.5 * n for n in range(len(rpts))]), ("P", [p for _, p in rpts])],
                     fn=lin, tol=1e-6)
